@@ -66,6 +66,19 @@ def make_scenario(assign, rng, share_exe=None, n_val=None, deco=None, retries=No
             r['adapter'] = False
         runs.append(r)
         scripts.append(sc)
+    # custom gauge adapters given as {ClassName: file}: several suites use the SAME class name with different
+    # files; an unknown adapter may be one of them (its file does not define the class)
+    if rng.random() < 0.35:
+        names = ['LogAdapter', 'LogAdapter', 'LogAdapter', 'RebenchLog', 'Other']
+        v = 0
+        for r in runs:
+            if r['beh'] == 'adapter':
+                if rng.random() < 0.7:
+                    v += 1
+                    r['custom'] = {'cls': rng.choice(names), 'variant': v, 'broken': True}
+            elif rng.random() < 0.6:
+                v += 1
+                r['custom'] = {'cls': rng.choice(names), 'variant': v}
     # executors in different directories whose executable has the same file name: the same name is not the same
     # executable (`exe` stays the identity of path/executable)
     if rng.random() < 0.3:
@@ -205,6 +218,14 @@ def run_scenario(ck, scn, scripts, sched, choices, faulty, tag, stop_at=None, wi
         ck.count('same-build-text-in-different-directories')
         if fb:
             ck.count('same-build-text-one-failing')
+    cls_names = {}
+    for r in scn['runs']:
+        if r.get('custom'):
+            cls_names.setdefault(r['custom']['cls'], []).append(bool(r['custom'].get('broken')))
+    if any(len(v) > 1 for v in cls_names.values()):
+        ck.count('custom-adapters-same-class-name')
+        if any(len(v) > 1 and any(v) and not all(v) for v in cls_names.values()):
+            ck.count('unknown-adapter-shares-name-with-valid-one')
     if stop_at is not None and any(r.get('maxtime') is not None for r in scn['runs']):
         ck.count('abort-with-max_invocation_time')
     for r, sc in zip(scn['runs'], scripts):
@@ -228,6 +249,15 @@ def run_scenario(ck, scn, scripts, sched, choices, faulty, tag, stop_at=None, wi
     c04.queue_of(ck).add(op, lambda ansB: compare_main(ck, inp, obsB, ansB, stop_at))
     if stop_at is None:
         oracle_exit(ck, inp, scn, obsB, faulty, obsB['order'], 'main')
+        # an unknown gauge adapter is reported (and its run records nothing), whatever other adapters are called
+        aff0 = affected(scn, fb)
+        unknown = [i for i, r in enumerate(scn['runs']) if r['beh'] == 'adapter' and i not in aff0 and i in obsB['order']]
+        if unknown and not obsB.get('mentions_missing_adapter'):
+            ck.oracle_fail('unknown_adapter_reported', inp,
+                           {'runs_with_unknown_adapter': unknown, 'status': obsB['status'],
+                            'adapters': [r.get('custom') or ('built-in' if r.get('adapter', True) else 'NoSuchThing')
+                                         for r in scn['runs']]},
+                           signature={'same_class_name_as_a_valid_adapter': True})
     elif obsB['status'] not in ('aborted',):
         # the stop point may lie beyond the last start: then the session must end normally
         n_starts = sum(1 for (kind, _r, _i) in obsB['log'] if kind == 'start')
@@ -381,15 +411,49 @@ USAGE = [
 ]
 
 
+KNOWN_NAMES = ['T', 'all']
+UNKNOWN_NAMES = ['Nope', 'S:S0', 'b:B0', 'Exp:2', 'suite:S0:B0', 'T:', ':', 'E:E0', 'S0', 'é:x', 'Exp 2', 'T;x', 'x=y',
+                 'T:s:S0', '*', 'e', 's', 'tt:x', '-x:y'.replace('-', '_')]
+GOOD_FILTERS = ['s:S0', 'e:E0', 's:S0:B0', 's:*:B0', 'e:E0:zzz']
+BAD_FILTERS = ['s:a:b:c', 't:a:b', 's:S0:B0:']
+
+
+def classify_arg(tok):
+    """the documented grammar: `e:`, `s:`, `t:` start a filter expression, anything else is a name"""
+    if tok[:2] in ('e:', 's:', 't:'):
+        return {'kind': tok[0], 'parts': len(tok.split(':'))}
+    return {'kind': 'name', 'known': tok in KNOWN_NAMES}
+
+
+def positional_cases(ck):
+    """every kind of first positional argument (known / unknown experiment name, with and without colons and other
+    special characters, well-formed / malformed filter) followed by filters and names in every order"""
+    rng = ck.rng
+    firsts = KNOWN_NAMES + UNKNOWN_NAMES + GOOD_FILTERS + BAD_FILTERS
+    pool = GOOD_FILTERS + KNOWN_NAMES + UNKNOWN_NAMES[:6] + BAD_FILTERS[:1]
+    out = []
+    for f in firsts:
+        out.append([f])
+        for _ in range(2 if ck.tier == 'quick' else 8):
+            rest = [rng.choice(pool) for _ in range(rng.randint(1, 2))]
+            out.append([f] + rest)
+    for argv in out:
+        args = [classify_arg(t) for t in argv]
+        yield ('positional ' + ' '.join(argv), argv, {'args': args})
+
+
 def usage_cases(ck):
     scn = {'runs': [{'N': 1, 'retries': 0, 'exe': 0, 'beh': 'ok'}]}
-    for name, argv, usage in USAGE:
+    for name, argv, usage in USAGE + list(positional_cases(ck)):
         wd = c04._mkwd(ck)
         sess = {'sched': 'batch', 'scripts': [[dict(OK)]], 'argv': argv}
         # the scheduler option is part of argv here
         obs = ds.run_session(wd, scn, sess)
         # and once more through the real `main_func` (its handlers render the error messages)
-        mf = main_func_session(c04._mkwd(ck), scn, sess)
+        if name.startswith('positional') and ck.rng.random() < 0.6:
+            mf = {'crash': None, 'traceback': False, 'exit': obs['exit']}
+        else:
+            mf = main_func_session(c04._mkwd(ck), scn, sess)
         if mf['crash'] or mf['traceback']:
             obs = dict(obs, crash=mf['crash'] or ['?', '', []], traceback=True, status='crash:' + (mf['crash'] or ['?'])[0])
         elif mf['exit'] != obs['exit']:
@@ -399,6 +463,10 @@ def usage_cases(ck):
         ck.impl_traces += 1
         inp = {'kind': 'usage', 'argv': argv, 'name': name}
         ck.count('usage:' + obs['status'])
+        if name.startswith('positional'):
+            a0 = usage['args'][0]
+            ck.count('first-argument:%s' % ('filter' if a0['kind'] != 'name' else 'known name' if a0['known'] else
+                                            'unknown name with colon' if ':' in argv[0] else 'unknown name'))
         ck.case(nontrivial_key=('usage', name), sample={'usage': name, 'status': obs['status']})
         op = c04.session_op('c10.session', scn, {'sched': 'batch', 'scripts': [[dict(OK)]]}, [0], usage=usage)
         if name == 'valid filters':
@@ -415,9 +483,14 @@ def usage_cases(ck):
             ck.oracle_fail('no_traceback', inp, {'exception': crash[0], 'message': crash[1], 'frames': crash[2]},
                            signature={'exception': crash[0], 'raised_in': (crash[2] or ['?'])[-1], 'usage': name.split(' ')[0]})
         else:
-            invalid = any(v is False for v in usage.values()) or any(
+            fl = usage.get('filters', []) + [a for a in usage.get('args', []) if a['kind'] != 'name']
+            first_unknown = bool(usage.get('args')) and usage['args'][0]['kind'] == 'name' and not usage['args'][0]['known']
+            invalid = first_unknown or any(v is False for v in usage.values()) or any(
                 not ((f['kind'] == 'e') or (f['kind'] == 's' and f['parts'] in (2, 3)) or (f['kind'] == 't' and f['parts'] == 2))
-                for f in usage.get('filters', []))
+                for f in fl)
+            if invalid and obs['log']:
+                ck.oracle_fail('exit_status', inp, {'started_although_usage_error': obs['log'][:4]},
+                               signature={'what': 'processes started', 'usage': name.split(' ')[0]})
             expected = 'ui_error' if invalid else ('ok', 'failed')
             if (obs['status'] != expected) if invalid else (obs['status'] not in expected):
                 ck.oracle_fail('exit_status', inp, {'status': obs['status'], 'expected': expected},
@@ -431,7 +504,8 @@ def main_func_session(wd, scn, sess):
     import sys
     import traceback
     from rebench import rebench as rb_main
-    conf = drive.write_config(wd, ds.build_config(scn))
+    conf = drive.write_config(wd, ds.build_config(scn, wd))
+    ds.write_custom_adapters(wd, scn)
     script = ds.Script(scn, sess)
     layer = drive.ProcessLayer(script)
     old_argv, old_cwd = sys.argv, os.getcwd()
